@@ -186,6 +186,10 @@ func c20One(c *ev.Ctx, cs ev.Case) {
 		if o.Pass > 4 {
 			o.Pass = 10
 		}
+		if (cc.Sub/len(ends))%3 == 1 { // a busy picture of a few hundred macroblocks: range ends that only bite on long token / bit streams
+			m = img.Gen(r, pickS(r, "noise", "photo", "tiles", "flatpatch"), pickS(r, "opaque", "opaque", "noise"), 100+r.Intn(220), 100+r.Intn(140))
+			o.Pass = min(o.Pass, 2)
+		}
 		data, err := encode(m, o)
 		c.Eval(1)
 		c.Distinct(fmt.Sprintf("legal|end%d|L=%v|a=%v", k, lossless, alpha))
